@@ -504,6 +504,14 @@ CheckerSeeds == {
   FoldSeed(<<"99999999999999999999">>, "Rejected")
 }
 ValidSeeds == {
+  \* an element of type ! (it never yields: an index into the empty array literal) in a NON-last position of a tuple / array /
+  \* struct literal: the elements behind it, and the names a destructuring binds to them, are still there
+  FoldSeed(<<"(", "(", "x", ":", "int", ")", "->", "any", "{", "(", "a", ",", "b", ",", "c", ")", ":=", "(", "1", ",", "[", "]", "[", "x", "]", ",", "3", ")", ";", "return", "c", "}", ")">>, "Accepted"),
+  FoldSeed(<<"(", "(", "x", ":", "int", ")", "->", "any", "{", "(", "a", ",", "b", ")", ":=", "(", "[", "]", "[", "x", "]", ",", "3", ")", ";", "y", ":=", "b", "+", "1", ";", "return", "y", "}", ")">>, "Accepted"),
+  FoldSeed(<<"(", "(", "x", ":", "int", ")", "->", "any", "{", "t", ":=", "(", "1", ",", "[", "]", "[", "x", "]", ",", "3", ")", ";", "return", "t", ".", "2", "}", ")">>, "Accepted"),
+  FoldSeed(<<"(", "(", "x", ":", "int", ")", "->", "any", "{", "a", ":=", "[", "1", ",", "[", "]", "[", "x", "]", ",", "3", "]", ";", "return", "a", "[", "2", "]", "}", ")">>, "Accepted"),
+  FoldSeed(<<"(", "(", "x", ":", "int", ")", "->", "any", "{", "s", ":=", "struct", "{", "p", ":=", "[", "]", "[", "x", "]", ",", "q", ":=", "3", "}", ";", "return", "s", ".", "q", "}", ")">>, "Accepted"),
+  FoldSeed(<<"(", "(", "x", ":", "int", ")", "->", "any", "{", "{", "(", "a", ",", "b", ",", "c", ")", ":=", "(", "1", ",", "[", "]", "[", "x", "]", ",", "3", ")", ";", "y", ":=", "c", "}", "return", "x", "}", ")">>, "Accepted"),
   \* a declaration whose initialiser folds to a statement that never yields (type !), and uses of the name as what it was declared to be
   FoldSeed(<<"(", "(", ")", "->", "any", "{", "x", ":=", "if", "true", "return", "1", "else", "(", "1", ",", "2", ")", ";", "y", ":=", "x", ".", "0", ";", "return", "2", "}", ")">>, "Accepted"),
   FoldSeed(<<"(", "(", ")", "->", "any", "{", "x", ":=", "if", "true", "return", "1", "else", "struct", "{", "a", ":=", "1", "}", ";", "y", ":=", "x", ".", "a", ";", "return", "2", "}", ")">>, "Accepted"),
